@@ -119,7 +119,7 @@ CycleOutcomes(X) ==
        IF PartialStart(X) THEN {noop, CycleW(X)} ELSE {noop}
 
 Check(e) ==
-  IF t.bad /\ e.ev # "new" THEN TRUE ELSE
+  IF t.bad /\ e.ev \notin {"new", "caller", "job", "jobcmp"} THEN TRUE ELSE
   CASE e.ev = "new" ->
          /\ ~IsPanic(e.msg)
          /\ Mode = "C02" => ((e.ok = 1) <=> ValidConfig(EvCfg(e)))
@@ -173,6 +173,9 @@ Check(e) ==
            /\ Len(B.q) = Len(A.q)
            /\ \A i \in 1..Len(A.q) : /\ Len(B.q[i]) = Len(A.q[i])
                                      /\ \A j \in 1..Len(A.q[i]) : B.q[i][j] = (A.q[i][j] + k) % M
+    [] e.ev = "caller" -> e.orig = e.after /\ e.origstart = e.afterstart     \* the caller's data is never touched (C14)
+    [] e.ev = "job" -> TRUE
+    [] e.ev = "jobcmp" -> \A i \in 1..Len(e.results) : e.results[i] = e.results[1]   \* same result in every run/order/thread count
     [] OTHER -> FALSE
 
 \* ---------------------------------------------------------------- state update (resync to the log)
